@@ -226,7 +226,8 @@ def r4_omen_exit_writers(ctx, rule):
     ok = False
     for c in calls_in(sfn):
         if isinstance(c.func, ast.Attribute) and c.func.attr == 'set' and [const(a) for a in c.args[:2]] == ['guessing_info', 'omen_guess_number']:
-            conds = [(U(t), p) for t, p in path_conditions(mod, c08._stmt_of(mod, c))]
+            from ..core import quiet_conditions
+            conds = [(U(t), p) for t, p in quiet_conditions(mod, c08._stmt_of(mod, c))]
             if conds == [('self.pcfg.omen_exit', True)] and U(c.args[2]) in ('str(self.pcfg.omen_guess_num)',):
                 ok = True
             facts = {'conditions': conds, 'value': U(c.args[2])}
